@@ -37,12 +37,14 @@ class Section:
         self.chk, self.name = chk, name
         self.reqs, self.impls, self.cases = [], [], []
         self.broken = []       # impl != model while impl == spec
+        self.last = []         # parsed driver responses of the last flush, in the order of add()
 
-    def add(self, req, impl, case, nontrivial=True):
+    def add(self, req, impl, case, nontrivial=True, key=None):
         self.reqs.append(req)
         self.impls.append(impl)
         self.cases.append(case)
-        self.chk.distinct((self.name, req), nontrivial)
+        self.chk.distinct((self.name, req if key is None else key), nontrivial)
+        return len(self.reqs) - 1
 
     def flush(self, spec_of=lambda d: d.get("spec"), model_of=lambda d: d.get("model"),
               impl_for_spec=lambda impl: impl, classify=lambda case, impl, d: []):
@@ -50,10 +52,12 @@ class Section:
         resps = chk.driver.ask(self.reqs)
         chk.count(len(self.reqs))
         f15 = 0
+        self.last = []
         for req, impl, case, resp in zip(self.reqs, self.impls, self.cases, resps):
             if resp.startswith("error"):
                 raise common.Infra(f"driver rejected {req!r}: {resp}")
             d = kv(resp)
+            self.last.append(d)
             spec, model = spec_of(d), model_of(d)
             if spec is not None and impl_for_spec(impl) != spec:
                 classes = classify(case, impl, d)
@@ -437,6 +441,27 @@ def init_cases(chk, quick):
     return cases
 
 
+def mem_model(d):
+    m = d.get("model")
+    if m is None or m == "ValueError":
+        return m
+    rows = m.split(";")
+    for r in rows:                       # the first failing element aborts the construction
+        if not r.startswith("ok,"):
+            return r
+    return ";".join(",".join(r.split(",")[:2]) for r in rows)
+
+
+def mem_spec(d):
+    s = d.get("spec")
+    if s is None:
+        return "ValueError" if d.get("model") == "ValueError" else None
+    for r in s.split(";"):
+        if not r.startswith("ok,"):
+            return r
+    return s
+
+
 def run_inits(chk, quick):
     from amaranth.hdl import Signal, Shape, Module
     from amaranth.hdl._mem import MemoryData
@@ -510,24 +535,6 @@ def run_inits(chk, quick):
         sec.add(req, impl, f"MemoryData(shape={shape!r}, depth={depth}, init={elems!r})"[:300], nontrivial=nel > 0)
         chk.hist("memory_outcome", "ok" if err is None else err)
 
-    def mem_model(d):
-        m = d.get("model")
-        if m is None or m == "ValueError":
-            return m
-        rows = m.split(";")
-        for r in rows:                       # the first failing element aborts the construction
-            if not r.startswith("ok,"):
-                return r
-        return ";".join(",".join(r.split(",")[:2]) for r in rows)
-
-    def mem_spec(d):
-        s = d.get("spec")
-        if s is None:
-            return "ValueError" if d.get("model") == "ValueError" else None
-        for r in s.split(";"):
-            if not r.startswith("ok,"):
-                return r
-        return s
     sec.flush(spec_of=mem_spec, model_of=mem_model, classify=classify)
 
     # warnings raised for memory rows: the same kinds as for a signal, checked per single-row memory
@@ -570,6 +577,560 @@ def run_inits(chk, quick):
         (f"Signal(Shape(w, sg), init=v) for w <= 6, |v| <= 70 and init=None; Signal(range(a, b, k), init=v) for a, b in [-6, 6], "
          f"k in +-1..3, v in [-9, 9] and None; ranges of 2^k elements with inits at the ends; constant-tree inits; {nsig} signals, "
          f"{nmem} memories")
+
+
+# ---- abstract initialisers and row/field shapes shared by the streams below ----
+#
+# The streams below describe every case abstractly (tuples of integers), build the amaranth objects from the
+# description, and serialise the description - never an object the code under test computed - for the driver.
+
+class _PlainE(enum.Enum):
+    A = 3
+    B = 12
+    Z = 0
+
+
+class _IntE(enum.IntEnum):
+    A = 2
+    B = 9
+
+
+class _NegE(enum.Enum):
+    M = -3
+    Z = 0
+    P = 2
+
+
+class _WideE(enum.IntEnum):
+    LO = 0
+    NEG = -129
+    HI = 1000
+
+
+ENUM_CLASSES = [_PlainE, _IntE, _NegE, _WideE]
+
+
+def model_enum_shapes(chk, classes):
+    """(width, signed) of each enumeration class according to the Lean side (model and spec must agree)"""
+    reqs = ["(enum" + "".join(f" {m.value}" for m in cls) + ")" for cls in classes]
+    out = []
+    for req, resp in zip(reqs, chk.driver.ask(reqs)):
+        d = kv(resp)
+        if resp.startswith("error") or d.get("model") != d.get("spec"):
+            raise common.Infra(f"driver: model and spec shapes of {req} differ: {resp}")
+        w, sg = d["spec"].split(",")
+        out.append((int(w), sg == "s"))
+    return out
+
+
+def fmt_row(r):
+    """a stored row / field must be a plain int; anything else is shown with its type"""
+    return str(r) if type(r) is int else f"{type(r).__name__}:{r!r}"
+
+
+def shape_bounds(w, sg):
+    return (-(1 << (w - 1)), 1 << (w - 1)) if sg else (0, 1 << w)
+
+
+def gen_abs_const(rng, w, sg):
+    lo, hi = shape_bounds(w, sg)
+    if rng.random() < 0.4:
+        v = rng.choice((lo, hi - 1, -1 if lo <= -1 else hi - 1, 0 if lo <= 0 else lo))
+    else:
+        v = rng.randrange(lo, hi)
+    return ("const", v, w, sg)
+
+
+def gen_abs_init(rng, W, sg, trees=True, allow_bad=False):
+    """abstract initialiser for a row / field of model shape (W, sg):
+    ('int', v) | ('const', v, w, sg) | ('member', class index, member index) | ('tree', t)"""
+    r = rng.random()
+    if r < 0.40:
+        lo, hi = shape_bounds(W, sg)
+        k = rng.random()
+        if k < 0.35:
+            v = rng.randrange(lo, hi)
+        elif k < 0.7:
+            v = rng.randrange(lo - (1 << W) - 3, hi + (1 << W) + 3)
+        else:
+            v = rng.choice((-1, 1)) * ((1 << rng.randrange(0, W + 4)) + rng.randrange(-2, 3))
+        return ("int", v)
+    if r < 0.72:
+        w = max(0, W + rng.choice((-3, -2, -1, -1, 0, 0, 1, 1, 2, 5)))
+        return gen_abs_const(rng, w, rng.random() < 0.5 and w > 0)
+    if r < 0.86 or not trees:
+        ci = rng.randrange(len(ENUM_CLASSES))
+        return ("member", ci, rng.randrange(len(ENUM_CLASSES[ci])))
+    return ("tree", gen_tree(rng, rng.randrange(1, 3), allow_bad))
+
+
+def abs_build(a):
+    from amaranth.hdl import Const, Shape
+    if a[0] == "int":
+        return a[1]
+    if a[0] == "const":
+        return Const(a[1], Shape(a[2], a[3]))
+    if a[0] == "member":
+        return list(ENUM_CLASSES[a[1]])[a[2]]
+    return build_tree(a[1])
+
+
+def abs_ser(a, eshapes):
+    """driver ARG of an abstract initialiser; an enumeration member is the constant of its value in the shape the
+    Lean side gives its enumeration"""
+    if a is None:
+        return "none"
+    if a[0] == "int":
+        return f"(int {a[1]})"
+    if a[0] == "const":
+        return f"(expr (c {a[1]} {a[2]} {'s' if a[3] else 'u'}))"
+    if a[0] == "member":
+        w, sg = eshapes[a[1]]
+        return f"(expr (c {list(ENUM_CLASSES[a[1]])[a[2]].value} {w} {'s' if sg else 'u'}))"
+    return f"(expr {common.ser_value(build_tree(a[1]), {})})"   # structure of the constructed Cat/Slice tree
+
+
+def abs_class(a, W, sg):
+    if a[0] == "int":
+        lo, hi = shape_bounds(W, sg)
+        return "int-in-range" if lo <= a[1] < hi else ("int-negative" if a[1] < 0 else "int-too-wide")
+    if a[0] == "const":
+        rel = "narrower" if a[2] < W else ("wider" if a[2] > W else "same-width")
+        return f"const-{rel}-{'s' if a[3] else 'u'}"
+    return a[0]
+
+
+def gen_plain_shape(rng, eshapes, ranges=True):
+    """abstract row / field shape -> (description, (W, sg) used for generation, amaranth shape-like, driver SHAPE)"""
+    from amaranth.hdl import Shape
+    r = rng.random()
+    if r < 0.12:
+        ci = rng.randrange(len(ENUM_CLASSES))
+        w, sg = eshapes[ci]
+        return ("enum", ci), (w, sg), ENUM_CLASSES[ci], f"(shape {w} {'s' if sg else 'u'})"
+    if ranges and r < 0.27:
+        a, b = rng.randint(-9, 9), rng.randint(-9, 20)
+        k = rng.choice((1, 1, 2, 3, -1, -2))
+        w = max(abs(a), abs(b)).bit_length() + 1      # only steers the value generator
+        return ("range", a, b, k), (w, a < 0 or b < 0), range(a, b, k), f"(range {a} {b} {k})"
+    w = rng.choice((0, 1, 1, 2, 3, 4, 5, 8, 8, 9, 16, 33))
+    sg = rng.random() < 0.5 and w > 0
+    obj = w if (not sg and rng.random() < 0.2) else Shape(w, sg)     # `shape=8` is unsigned(8)
+    return ("shape", w, sg), (w, sg), obj, f"(shape {w} {'s' if sg else 'u'})"
+
+
+def fmt_slice(sl):
+    f = lambda x: "" if x is None else str(x)  # noqa: E731
+    return f"{f(sl.start)}:{f(sl.stop)}" + ("" if sl.step is None else f":{sl.step}")
+
+
+def run_mem_assign(chk, quick, eshapes):
+    """rows assigned after construction - `mem.init[i] = v`, `mem.init[a:b] = [...]`, `mem.init[a:b:s] = [...]`,
+    `mem.init = [...]` - are wrapped like rows given to the constructor (model: memInit / initValue per row)"""
+    from amaranth.hdl import Module
+    from amaranth.hdl._mem import MemoryData
+    from amaranth.lib.memory import Memory
+    from amaranth.sim import Simulator
+    rng = chk.rng
+    ncase = 1200 if quick else 30000
+    sec_op = Section(chk, "memory-assign")
+    sec_fin = Section(chk, "memory-assign-rows")
+    finished = []
+
+    def classify(case, impl, d):
+        return ["F15"] if impl == "OverflowError" and "range(" in case else []
+
+    def gen_vals(n, sdesc, W, sg, bad):
+        vals = []
+        for _ in range(n):
+            if sdesc[0] == "range" and rng.random() < 0.9:
+                r = range(*sdesc[1:])
+                vals.append(("int", rng.choice(r) if r else 0))
+            elif sdesc[0] == "enum" and rng.random() < 0.5:
+                vals.append(("member", sdesc[1], rng.randrange(len(ENUM_CLASSES[sdesc[1]]))))
+            else:
+                vals.append(gen_abs_init(rng, W, sg, allow_bad=bad))
+        return vals
+
+    for ci in range(ncase):
+        sdesc, (W, sg), shape, shape_ser = gen_plain_shape(rng, eshapes)
+        depth = rng.choice((0, 1, 2, 3, 4, 4, 5, 6, 8))
+        kind = rng.choice(("MemoryData", "Memory"))
+        bad = ci % 8 == 0
+        chk.hist("mem_assign_shape", sdesc[0] if sdesc[0] != "shape" else
+                 ("width0" if W == 0 else ("signed" if sg else "unsigned")))
+        # constructor rows: nothing, or integers (always accepted by plain shapes; elements of a range shape)
+        nctor = 0 if rng.random() < 0.5 else rng.randrange(0, depth + 1)
+        if sdesc[0] == "range":
+            r = range(*sdesc[1:])
+            ctor = [("int", rng.choice(r)) for _ in range(nctor)] if r else []
+        else:
+            ctor = [("int", rng.randrange(-(2 << W), (2 << W) + 1)) for _ in range(nctor)]
+        args = [a for a in ctor] + [None] * (depth - len(ctor))     # None: a row nothing was stored in (holds 0)
+        text = f"{kind}(shape={shape!r}, depth={depth}, init={[abs_build(a) for a in ctor]!r})"
+
+        def build():
+            cls = MemoryData if kind == "MemoryData" else Memory
+            return cls(shape=shape, depth=depth, init=[abs_build(a) for a in ctor])
+        mem, err, _w = with_warnings(build)
+        impl = ";".join("ok," + fmt_row(r) for r in mem.init) if err is None else err
+        sec_op.add(f"(mem {depth} {shape_ser}" + "".join(" " + abs_ser(a, eshapes) for a in ctor) + ")", impl, text[:400],
+                   nontrivial=len(ctor) > 0, key=("ctor", ci))
+        failed = err is not None
+        nops = rng.randrange(1, 5)
+        for oi in range(nops):
+            if failed:
+                break
+            k = rng.random()
+            if k < 0.28 and depth > 0:
+                op = "item"
+                idx = rng.randrange(-depth, depth)
+                targets = [idx % depth]
+                vals = gen_vals(1, sdesc, W, sg, bad)
+                objs = [abs_build(a) for a in vals]
+                optext = f".init[{idx}] = {objs[0]!r}"
+
+                def apply():
+                    mem.init[idx] = objs[0]
+            elif k < 0.85:
+                ext = rng.random() < 0.45
+                op = "extslice" if ext else "slice"
+                bound = lambda: rng.choice((None, rng.randint(-depth - 1, depth + 1)))  # noqa: E731
+                sl = slice(bound(), bound(), rng.choice((2, 3, -1, -2, 2)) if ext else rng.choice((None, None, 1)))
+                if not ext and rng.random() < 0.5 and depth > 0:
+                    a = rng.randrange(0, depth)
+                    sl = slice(a, rng.randrange(a, depth + 1), sl.step)      # ordinary non-empty windows
+                targets = list(range(*sl.indices(depth)))
+                chk.hist("mem_assign_slice_rows", len(targets))
+                vals = gen_vals(len(targets), sdesc, W, sg, bad)
+                objs = [abs_build(a) for a in vals]
+                optext = f".init[{fmt_slice(sl)}] = {objs!r}"
+
+                def apply():
+                    mem.init[sl] = objs
+            else:
+                op = "whole"
+                n = rng.randrange(0, depth + 1) if rng.random() < 0.9 else depth + rng.randrange(1, 3)
+                targets = list(range(depth))
+                vals = gen_vals(n, sdesc, W, sg, bad)
+                objs = [abs_build(a) for a in vals]
+                optext = f".init = {objs!r}"
+
+                def apply():
+                    mem.init = objs
+            _v, err, _w = with_warnings(apply)
+            text = (text + "; " + optext)[:600]
+            for a in vals:
+                chk.hist("mem_assign_value", abs_class(a, W, sg))
+            chk.hist("mem_assign_op", op)
+            chk.hist("mem_assign_outcome", "ok" if err is None else err)
+            nrows = depth if op == "whole" else len(vals)
+            if err is None:
+                impl = ";".join("ok," + fmt_row(mem.init[j]) for j in targets)
+            else:
+                impl = err
+                failed = True
+            sec_op.add(f"(mem {nrows} {shape_ser}" + "".join(" " + abs_ser(a, eshapes) for a in vals) + ")", impl,
+                       f"{text} -> rows {targets}", nontrivial=len(vals) > 0, key=("op", ci, oi))
+            if err is None:
+                if op == "whole":
+                    args = list(vals) + [None] * (depth - len(vals))
+                else:
+                    for j, a in zip(targets, vals):
+                        args[j] = a
+        if failed:
+            continue
+        # every row afterwards: the last initialiser stored there (or 0), wrapped; untouched rows unchanged
+        impl = ";".join("ok," + fmt_row(r) for r in mem.init)
+        i = sec_fin.add(f"(mem {depth} {shape_ser}" + "".join(" " + abs_ser(a, eshapes) for a in args) + ")", impl,
+                        f"{text}; list(.init)", nontrivial=depth > 0, key=("rows", ci))
+        if depth > 0:
+            finished.append((i, kind, mem, text))
+        if ci < 2:
+            chk.sample({"memory": text[:300], "rows": impl})
+    sec_op.flush(spec_of=mem_spec, model_of=mem_model, classify=classify)
+    sec_fin.flush(spec_of=mem_spec, model_of=mem_model, classify=classify)
+
+    # the rows the simulator starts from: compared with the Spec rows of the driver (not with `.init`)
+    sample = finished[:: max(1, len(finished) // (80 if quick else 800))]
+    m = Module()
+    insts = []
+    for n, (i, kind, mem, text) in enumerate(sample):
+        spec = mem_spec(sec_fin.last[i])
+        if not spec or not all(r.startswith("ok,") for r in spec.split(";")):
+            continue
+        memory = Memory(mem) if kind == "MemoryData" else mem
+        m.submodules[f"m{n}"] = memory
+        insts.append((memory, [r.split(",")[1] for r in spec.split(";")], text))
+    got = {}
+
+    async def tb(ctx):
+        for n, (memory, rows, _t) in enumerate(insts):
+            got[n] = [fmt_row(ctx.get(memory.data[j])) for j in range(len(rows))]
+
+    def simulate():
+        with warnings.catch_warnings():
+            warnings.simplefilter("ignore")
+            sim = Simulator(m)
+            sim.add_testbench(tb)
+            sim.run()
+    _v, err = guarded(simulate)
+    chk.count(len(insts))
+    chk.hist("mem_assign_simulated", "memories", len(insts))
+    if err is not None:
+        chk.violation(f"memory-assign: simulating memories whose rows were assigned after construction raises {err}",
+                      {"section": "memory-assign-sim", "error": err, "memories": [t for _m, _r, t in insts][:5],
+                       "classes": []})
+    else:
+        for n, (memory, rows, text) in enumerate(insts):
+            if got.get(n) != rows:
+                chk.violation(f"memory-assign: {text}: the simulator starts from rows {got.get(n)}, "
+                              f"property requires {rows}",
+                              {"section": "memory-assign-sim", "case": text, "sim": got.get(n), "spec": rows,
+                               "classes": []})
+    chk.extra.setdefault("exhaustive", {})["memory-assign"] = \
+        (f"random: {ncase} memories (MemoryData and lib.memory.Memory; unsigned/signed/width-0/int/range/plain-enum row "
+         f"shapes) with 1-4 assignments each after construction (single row, slice, extended slice, whole `init`); values: "
+         f"in-range / negative / too wide integers, Const of narrower, equal, wider width and either signedness, enum members, "
+         f"Cat/Slice trees; rows read back after every assignment and at the end, {len(insts)} memories simulated")
+
+
+def run_enum_hier(chk, quick):
+    """enumerations derived from member-less base enumerations; the order in which the classes of one hierarchy are cast
+    is varied (base first / derived first / base never / random, classes cast repeatedly, several derived classes)"""
+    from amaranth.hdl import Shape, Signal, Value
+    import amaranth.lib.enum as aenum
+    rng = chk.rng
+    kinds = {"Enum": enum.Enum, "IntEnum": enum.IntEnum, "amaranth.Enum": aenum.Enum, "amaranth.IntEnum": aenum.IntEnum}
+    patterns = ("base-first", "derived-first", "base-never", "random")
+    ncase = 480 if quick else 20000
+    sec = Section(chk, "enum-hier")
+    secm = Section(chk, "enum-hier-member")
+    secv = Section(chk, "enum-hier-member-value")
+    for ci in range(ncase):
+        kind = list(kinds)[(ci // len(patterns)) % len(kinds)]
+        pattern = patterns[ci % len(patterns)]
+        nbase = rng.choice((1, 1, 2))
+        nder = rng.randrange(1, 4)
+        dvals = []
+        for _ in range(nder):
+            size = rng.choice((0, 1, 1, 2, 2, 3, 4))
+            vals = []
+            while len(vals) < size:
+                v = rng.choice((-1, 1)) * ((1 << rng.randrange(0, 40)) + rng.randrange(-2, 3)) if rng.random() < 0.3 \
+                    else rng.choice(ENUM_POOL + [5, 6, -3, 1000, -129])
+                if v not in vals:
+                    vals.append(v)
+            dvals.append(vals)
+        # classes: member-less bases B0 (<- B1), then the derived classes, each under one of the bases
+        with warnings.catch_warnings():
+            warnings.simplefilter("ignore")
+            bases = [kinds[kind]("B0", {})]
+            for bi in range(1, nbase):
+                bases.append(bases[-1](f"B{bi}", {}))
+            parents = [rng.randrange(nbase) if rng.random() < 0.3 else nbase - 1 for _ in range(nder)]
+            derived = [bases[parents[j]](f"D{j}", {f"M{k}": v for k, v in enumerate(dvals[j])}) for j in range(nder)]
+        classes = bases + derived
+        values = [[] for _ in bases] + dvals
+        names = [f"B{bi}" for bi in range(nbase)] + [f"D{j}(B{parents[j]})" for j in range(nder)]
+        bidx, didx = list(range(nbase)), list(range(nbase, nbase + nder))
+        if pattern == "base-first":
+            order = (bidx if rng.random() < 0.5 else bidx[::-1]) + rng.sample(didx, len(didx))
+            order += [rng.choice(bidx + didx) for _ in range(rng.randrange(0, 3))]
+        elif pattern == "derived-first":
+            order = rng.sample(didx, len(didx)) + bidx + rng.sample(didx, len(didx))
+        elif pattern == "base-never":
+            order = rng.sample(didx, len(didx)) + [rng.choice(didx) for _ in range(rng.randrange(0, 3))]
+        else:
+            order = [rng.choice(bidx + didx) for _ in range(rng.randrange(2, 9))]
+        desc = f"{kind} hierarchy " + ", ".join(f"{n}={v}" for n, v in zip(names, values))
+        otext = " ".join(names[c].split("(")[0] for c in order)
+        chk.hist("enum_hier_kind", kind)
+        chk.hist("enum_hier_pattern", pattern)
+        chk.hist("enum_hier_bases", nbase)
+        chk.hist("enum_hier_derived", nder)
+        seen = set()
+        for pos, c in enumerate(order):
+            cls, vals = classes[c], values[c]
+            req = "(enum" + "".join(f" {v}" for v in vals) + ")"
+            val, err, _w = with_warnings(lambda: Shape.cast(cls))
+            state = ("base" if c < nbase else "derived") + ("-again" if c in seen else "-first") + \
+                ("" if c < nbase else ("-after-base" if any(b in seen for b in bidx) else "-before-base"))
+            chk.hist("enum_hier_cast", state)
+            seen.add(c)
+            where = f"{desc}; casts in the order {otext}; cast #{pos + 1}"
+            sec.add(req, shs(val) if err is None else err, f"{where}: Shape.cast({names[c]})",
+                    nontrivial=len(vals) > 0, key=(ci, pos))
+            if not vals:
+                continue
+            # a member used as a value, and as the initial value of a signal of the enumeration
+            mi = rng.randrange(len(vals))
+            member = list(cls)[mi]
+            cv, err, _w = with_warnings(lambda: Value.cast(member))
+            secm.add(req, shs(cv.shape()) if err is None else err, f"{where}: Value.cast({names[c]}.M{mi}).shape()",
+                     key=(ci, pos, "v"))
+            if err is None:
+                secv.add(f"(const {vals[mi]} {ser_shape(cv.shape())})", str(cv.value),
+                         f"{where}: Value.cast({names[c]}.M{mi}).value", key=(ci, pos, "vv"))
+            sv, err, _w = with_warnings(lambda: Value.cast(Signal(cls, init=member)))
+            secm.add(req, shs(sv.shape()) if err is None else err,
+                     f"{where}: Signal({names[c]}, init=M{mi}).shape()", key=(ci, pos, "s"))
+            if err is None:
+                secv.add(f"(const {vals[mi]} {ser_shape(sv.shape())})", str(sv.init),
+                         f"{where}: Signal({names[c]}, init=M{mi}).init", key=(ci, pos, "sv"))
+        if ci < 2:
+            chk.sample({"enum hierarchy": desc, "cast order": otext})
+    sec.flush()
+    secm.flush()
+    secv.flush()
+    chk.extra.setdefault("exhaustive", {})["enum-hier"] = \
+        (f"random: {ncase} hierarchies (enum.Enum, enum.IntEnum, shape-less amaranth.lib.enum.Enum/IntEnum; 1-2 member-less "
+         f"bases, 1-3 derived classes of 0-4 members, negative and wide values), cast orders base-first / derived-first / "
+         f"base-never / random with repeats; per cast Shape.cast, a member as value and as Signal init")
+
+
+def run_layouts(chk, quick, eshapes):
+    """layout-shaped constants and signal initial values: every field holds its initialiser (int, enum member, Const of
+    narrower / equal / wider width and either signedness) wrapped to the FIELD's shape, at the field's offset.
+    The driver gives constNorm / constOf per field (`init` request); offsets and the placement are computed here from the
+    abstract description (sum of the widths before the field; element index * width; 0 in a union)."""
+    from amaranth.hdl import Const, Shape, Signal
+    from amaranth.lib import data
+    import types
+    rng = chk.rng
+    ncase = 1500 if quick else 40000
+    reqs, pend = [], []
+    for ci in range(ncase):
+        lk = rng.choice(("struct", "struct", "struct", "array", "array", "union", "structcls"))
+        fields = []          # (key, (W, sg), amaranth shape, driver SHAPE, offset)
+        if lk == "array":
+            _sd, wsg, obj, ser = gen_plain_shape(rng, eshapes, ranges=False)
+            n = rng.randrange(1, 5)
+            fields = [(j, wsg, obj, ser, j * wsg[0]) for j in range(n)]
+            total = n * wsg[0]
+            layout = data.ArrayLayout(obj, n)
+            ltext = f"ArrayLayout({obj!r}, {n})"
+        else:
+            off = 0
+            total = 0
+            for j in range(rng.randrange(1, 5)):
+                _sd, wsg, obj, ser = gen_plain_shape(rng, eshapes, ranges=False)
+                if wsg[0] > 16:
+                    wsg, obj, ser = (7, True), Shape(7, True), "(shape 7 s)"
+                fields.append((f"f{j}", wsg, obj, ser, 0 if lk == "union" else off))
+                off += wsg[0]
+                total = max(total, wsg[0]) if lk == "union" else off
+            members = {k: obj for k, _w, obj, _s, _o in fields}
+            if lk == "union":
+                layout = data.UnionLayout(members)
+            else:
+                layout = data.StructLayout(members)
+            ltext = f"{'Union' if lk == 'union' else 'Struct'}Layout({members!r})"
+        byname = {f[0]: f for f in fields}
+        # initialisers
+        keys = [f[0] for f in fields]
+        if lk == "union":
+            chosen = [rng.choice(keys)]
+        else:
+            chosen = [k for k in keys if rng.random() < 0.8] or [rng.choice(keys)]
+            rng.shuffle(chosen)
+        init_abs = {k: gen_abs_init(rng, *byname[k][1], trees=False) for k in chosen}
+        defaults = {}
+        target = layout
+        if lk == "structcls":
+            defaults = {k: gen_abs_init(rng, *byname[k][1], trees=False) for k in keys if rng.random() < 0.5}
+            ns = {"__annotations__": {k: byname[k][2] for k in keys}}
+            ns.update({k: abs_build(a) for k, a in defaults.items()})
+            target = types.new_class(f"S{ci}", (data.Struct,), {}, lambda d: d.update(ns))
+            ltext = f"Struct class over {ltext} with defaults {({k: abs_build(a) for k, a in defaults.items()})!r}"[:300]
+        seq = lk == "array" and rng.random() < 0.4
+        if seq:
+            # sequence form: elements 0..k-1 in order
+            k = rng.randrange(1, len(keys) + 1)
+            init_abs = {j: gen_abs_init(rng, *byname[j][1], trees=False) for j in range(k)}
+            init_obj = [abs_build(a) for a in init_abs.values()]
+        else:
+            init_obj = {k: abs_build(a) for k, a in init_abs.items()}
+        # effective field assignments in order: class defaults first (declaration order), overridden in place
+        effective = dict(defaults)
+        effective.update(init_abs)
+        items = list(effective.items())
+        for k, a in items:
+            chk.hist("layout_field_init", abs_class(a, *byname[k][1]))
+        chk.hist("layout_kind", lk + ("-seq" if seq else ""))
+        chk.hist("layout_total_width", total)
+        obs = {}
+        with warnings.catch_warnings():
+            warnings.simplefilter("ignore")
+            if lk == "structcls":
+                obs["const"] = guarded(lambda: target.const(init_obj).as_bits())
+            else:
+                obs["const"] = guarded(lambda: layout.const(init_obj).as_bits())
+            obs["Const(init, layout)"] = guarded(lambda: Const(init_obj, target).as_bits())
+            obs["Signal(layout, init=)"] = guarded(lambda: Signal(target, init=init_obj).as_value().init)
+            if lk not in ("union",) and obs["const"][1] is None:
+                c = layout.const(init_obj) if lk != "structcls" else target.const(init_obj)
+                for k, a in items:
+                    if not isinstance(byname[k][2], type):      # plain Shape / int fields read back as int
+                        obs[f"const[{k!r}]"] = guarded(lambda: c[k])
+        text = f"{ltext}, init={init_obj!r}"[:500]
+        for k, a in items:
+            reqs.append(f"(init {abs_ser(a, eshapes)} {byname[k][3]})")
+        pend.append((ci, text, [(k, byname[k][1], byname[k][4]) for k, _a in items], obs))
+        chk.distinct(("layout", ci, text), True)
+        if ci < 2:
+            chk.sample({"layout": text, "bits": obs["const"][0]})
+    resps = chk.driver.ask(reqs)
+    pos = 0
+    broken = []
+    nobs = 0
+    for ci, text, items, obs in pend:
+        exp = {"spec": 0, "model": 0}
+        fieldvals = {}
+        for k, (w, _sg), off in items:
+            resp = resps[pos]
+            req = reqs[pos]
+            pos += 1
+            if resp.startswith("error"):
+                raise common.Infra(f"driver rejected {req!r}: {resp}")
+            d = kv(resp)
+            vals = {}
+            for side in ("spec", "model"):
+                parts = d.get(side, "").split(",")
+                if parts[0] != "ok":
+                    raise common.Infra(f"driver: field initialiser {req!r} is not a constant: {resp}")
+                vals[side] = int(parts[1])
+                mask = ((1 << w) - 1) << off
+                exp[side] = (exp[side] & ~mask) | ((vals[side] << off) & mask)
+            fieldvals[k] = vals
+        for name, (val, err) in obs.items():
+            nobs += 1
+            impl = val if err is None else err
+            if name.startswith("const["):
+                k = [k for k in fieldvals if name == f"const[{k!r}]"][0]
+                want = fieldvals[k]
+                impl = fmt_row(impl) if err is None else err
+                want = {s: str(v) for s, v in want.items()}
+            else:
+                want = exp
+            if impl != want["spec"]:
+                chk.violation(f"layout-const: {text}: {name} gives {impl if isinstance(impl, str) else hex(impl)}, "
+                              f"property requires {want['spec'] if isinstance(want['spec'], str) else hex(want['spec'])}",
+                              {"section": "layout-const", "case": text, "observable": name, "impl": impl,
+                               "spec": want["spec"], "model": want["model"],
+                               "fields": [(repr(k), w, off) for k, (w, _s), off in items], "classes": []})
+            elif impl != want["model"]:
+                broken.append({"case": text, "observable": name, "impl": impl, "model": want["model"]})
+    chk.count(nobs)
+    if broken:
+        chk.not_shown(f"layout-const: the code agrees with the Spec but no longer with the Lean model ({len(broken)} cases)",
+                      broken[:10])
+    chk.extra.setdefault("exhaustive", {})["layout-const"] = \
+        (f"random: {ncase} struct / array / union layouts and data.Struct classes with field defaults (1-4 fields of "
+         f"unsigned/signed/width-0/int/plain-enum shape), initialisers int (in range, negative, too wide), enum members, "
+         f"Const narrower / equal / wider than the field and of either signedness, mapping order shuffled, sequence form "
+         f"for arrays; observed: layout.const(init).as_bits(), Const(init, layout), Signal(layout, init=).init, field read-back")
+
 
 
 def run_bits(chk, quick):
@@ -623,6 +1184,10 @@ def run(chk):
     run_consts(chk, quick)
     run_trees(chk, quick)
     run_inits(chk, quick)
+    eshapes = model_enum_shapes(chk, ENUM_CLASSES)
+    run_mem_assign(chk, quick, eshapes)
+    run_enum_hier(chk, quick)
+    run_layouts(chk, quick, eshapes)
     chk.cov["rule"] = ("small domains enumerated completely (see coverage.exhaustive), large values sampled around powers of two "
                        "from the seeded PRNG; a case is distinct by its driver request, non-trivial unless it is an empty enum, "
                        "a bare Const tree or an absent initial value")
